@@ -288,8 +288,9 @@ def e2e_elemwise(chunkss, light=False):
         _same("da.add(numpy operand)", da.add(dx, y), np.add(x, y), info)
         _same("x+y astype(i2)", (dx + dy).astype("i2"), (x + y).astype("i2"), info)
         _same("clip(x,2,y+6)", da.clip(dx, 2, dy + 6), np.clip(x, 2, y + 6), info)
-        # out=
+        # out= (dask requires out.shape == broadcast shape of the inputs: handle_out's documented check)
         ref = np.add(x, y)
+        oshape = ref.shape
         ochunks = tuple(_split(n, 2) for n in oshape)
         o = da.from_array(np.zeros(oshape, dtype=ref.dtype), chunks=ochunks)
         got = np.add(dx, dy, out=o)
@@ -600,7 +601,7 @@ def mk_bchunks(ndims, maxn, DMAX, CH):
         ops = setup(NativeEngine(model))[0]
         e2e_elemwise(ops, light=True)
 
-    return Obligation(f"broadcast_chunks[ndims={list(ndims)},chunks<={maxn}]", setup, run, patches=_patches, e2e=e2e, e2e_every=9)
+    return Obligation(f"broadcast_chunks[ndims={list(ndims)},chunks<={maxn},dim<={DMAX}]", setup, run, patches=_patches, e2e=e2e, e2e_every=9)
 
 
 # ---------------------------------------------------------------- (5) blockwise block alignment
@@ -765,14 +766,16 @@ def mk_broadcast_to(m, maxn, DMAX, maxnew, with_chunks):
             e.assume(lambda: _tot(c) <= DMAX)
         nnew = e.choice("nnew", maxnew + 1)
         tgt = tuple(e.int(f"t{a}", 0, DMAX) for a in range(nnew + m))
-        split = tuple(1 + e.choice(f"k{a}", 2) for a in range(nnew + m)) if with_chunks else None
+        # everything is concrete from here on: real Arrays are built (solver-driven enumeration of the inputs)
+        src, tgt = _plain(src), _plain(tgt)
+        split = None
+        if with_chunks and builtins.all(sum(c) in (1, t) for c, t in zip(src, tgt[nnew:])):
+            split = 1 + e.choice("split", 2)        # chunks= argument: None, or the free axes cut into `split` pieces
+            split = None if split == 1 else split
         return src, nnew, tgt, split
 
     def run(e, src, nnew, tgt, split):
         _clear()
-        # everything below is concrete: real Arrays are built (solver-driven enumeration of the inputs)
-        src = _plain(src)
-        tgt = _plain(tgt)
         sshape = tuple(sum(c) for c in src)
         x = _mk(sshape, 0)
         dx = da.from_array(x, chunks=src, name="src")
@@ -790,7 +793,7 @@ def mk_broadcast_to(m, maxn, DMAX, maxnew, with_chunks):
                 if a >= nnew and sshape[a - nnew] != 1:
                     chunks.append(src[a - nnew])
                 else:
-                    chunks.append(_split(n, split[a]) if n else (0,))
+                    chunks.append(_split(n, split) if n else (0,))
             chunks = tuple(chunks)
         try:
             r = AC.broadcast_to(dx, tgt, chunks=chunks)
@@ -836,17 +839,16 @@ def obligations(tier):
             obs.append(mk_bshape(k, 2, 4))
         obs.append(mk_common(2, 3, 4, 4))
         obs.append(mk_common(3, 3, 4, 4))
-        for ndims, maxn, ev in (((1, 1), 3, 3), ((2, 1), 3, 7), ((1, 2), 2, 7), ((2, 2), 2, 11), ((1, 1, 1), 3, 7), ((2, 2, 1), 1, 7)):
-            obs.append(mk_unify(ndims, maxn, 4, 4, ev))
-        for ndims, maxn in (((1, 1), 3), ((2, 1), 2), ((2, 2), 1), ((1, 1, 1), 2)):
-            obs.append(mk_bchunks(ndims, maxn, 4, 4))
+        for ndims, maxn, dmax, ev in (((1, 1), 3, 4, 3), ((2, 1), 2, 4, 7), ((1, 2), 2, 3, 7), ((2, 2), 2, 3, 11), ((1, 1, 1), 3, 3, 7), ((2, 2, 1), 1, 3, 7)):
+            obs.append(mk_unify(ndims, maxn, dmax, 4, ev))
+        for ndims, maxn, dmax in (((1, 1), 3, 3), ((2, 1), 2, 2), ((1, 1, 1), 2, 3)):
+            obs.append(mk_bchunks(ndims, maxn, dmax, 4))
         for p in ("ij,j", "ij,ij", "i,i,i", "ij,j,lit", "ij,ij,j", "ij,ji", "ij,lit,ij", "j,ij"):
             obs.append(mk_blockwise(p, 3))
         obs.append(mk_blockwise("ij,j", 3, ints=True))
         obs.append(mk_blockwise("ij,ij,j", 3, ints=True))
-        obs.append(mk_broadcast_to(1, 2, 3, 1, False))
         obs.append(mk_broadcast_to(1, 2, 3, 1, True))
-        obs.append(mk_broadcast_to(2, 2, 2, 1, False))
+        obs.append(mk_broadcast_to(2, 2, 2, 0, False))
     else:
         for k in (1, 2, 3):
             obs.append(mk_bshape(k, 3, 9))
@@ -854,16 +856,16 @@ def obligations(tier):
         obs.append(mk_common(3, 3, 6, 5))
         obs.append(mk_common(2, 4, 6, 3, zero=True))
         obs.append(mk_common(3, 3, 4, 3, zero=True))
-        for ndims, maxn, ev in (((1, 1), 3, 1), ((2, 1), 3, 7), ((1, 2), 3, 7), ((2, 2), 3, 11), ((1, 1, 1), 3, 7), ((2, 2, 1), 2, 11), ((2, 1, 2), 2, 11), ((2, 2, 2), 2, 31)):
-            obs.append(mk_unify(ndims, maxn, 5 if builtins.max(ndims) == 1 else 4, 5, ev))
-        for ndims, maxn in (((1, 1), 3), ((2, 1), 3), ((2, 2), 2), ((1, 1, 1), 3), ((2, 2, 1), 2)):
-            obs.append(mk_bchunks(ndims, maxn, 4, 4))
+        for ndims, maxn, dmax, ev in (((1, 1), 3, 5, 1), ((2, 1), 3, 4, 7), ((1, 2), 3, 4, 7), ((2, 2), 3, 4, 11), ((1, 1, 1), 3, 5, 7), ((2, 2, 1), 2, 4, 11),
+                                      ((2, 1, 2), 2, 3, 11), ((2, 2, 2), 2, 3, 31)):
+            obs.append(mk_unify(ndims, maxn, dmax, 5, ev))
+        for ndims, maxn, dmax in (((1, 1), 3, 4), ((2, 1), 3, 4), ((2, 2), 2, 3), ((1, 1, 1), 3, 4), ((2, 2, 1), 2, 3)):
+            obs.append(mk_bchunks(ndims, maxn, dmax, 4))
         for p in PATTERNS:
             obs.append(mk_blockwise(p, 3 if "k" in p else 4))
         for p in ("ij,j", "ij,ij,j", "ijk,jk,k"):
             obs.append(mk_blockwise(p, 3, ints=True))
-        for wc in (False, True):
-            obs.append(mk_broadcast_to(1, 3, 4, 2, wc))
-            obs.append(mk_broadcast_to(2, 3, 4, 1, wc))
+        obs.append(mk_broadcast_to(1, 3, 4, 2, True))
+        obs.append(mk_broadcast_to(2, 3, 3, 1, True))
         obs.append(mk_broadcast_to(2, 2, 3, 2, False))
     return obs
